@@ -333,6 +333,34 @@ def c09_require(agg):
     return need
 
 
+# ------------------------------------------------------------------ C10
+
+def c10_env(b):
+    e = {}
+    if b % 3 == 1:
+        e["IPCMON_WIDEN"] = "2:300:0"
+    if b % 3 == 2:
+        e["IPCMON_DELAY"] = "%d:%d:%d" % (b + 17, 100, 300)
+    return e
+
+
+def c10_plan(tier, seed):
+    q = tier == "quick"
+    out = jobs("os-debug", "c10", 13 if q else 32, c10_env, {"cases": 40 if q else 400}, timeout=2400)
+    out += jobs("inproc-debug", "c10", 3 if q else 8, None, {"cases": 40 if q else 400}, timeout=2400)
+    return out
+
+
+def c10_require(agg):
+    st = agg["stats"]
+    need = []
+    for k, n in (("result_msg", 200), ("result_empty", 500), ("result_disconnected", 100), ("timeout_empty_results", 300),
+                 ("poison_probe_blocked-then-delivered", 50)):
+        if st.get(k, 0) < n:
+            need.append("%s < %d" % (k, n))
+    return need
+
+
 # ------------------------------------------------------------------ C19
 
 def c19_plan(tier, seed):
@@ -386,6 +414,21 @@ NOTES = ("Runtime monitoring and sanitizers. ./check <id> rebuilds the harness (
 NOT_APPLICABLE = {}
 
 PROPS = {
+    "C10": {
+        "plan": c10_plan,
+        "require": c10_require,
+        "level": "exploration",
+        "level_text": "Exploration: seeded sequences of try_recv / try_recv_timeout(d) with d in {0, 100us, 900us, 1ms, 5ms, 50ms, 300ms, (thorough) 2s} run against a sender "
+                      "thread that sends small or multi-packet messages or drops on a seeded schedule; every call and every send is stamped and the history is checked "
+                      "offline (message only after it was sent and in order; Empty only if nothing was completely sent before the call - or, for timed calls, 50 ms "
+                      "before the deadline; Disconnected only after the drop began and after the last message; timed Empty not earlier than floor(d) ms - 1 ms); "
+                      "afterwards a blocking recv must be observed asleep in recvmsg and then return exactly the message sent next.",
+        "level_note": "Timing clauses use stamp order with explicit tolerances (1 ms clock tolerance, 50 ms lateness margin) so that machine load cannot flip a verdict; "
+                      "'blocks' is decided by the logical hang rule. IpcBytesReceiver has no timed receive and is covered through try_recv in C01.",
+        "technique": "runtime monitoring: stamped call/return histories of non-blocking and timed receives checked offline against the sender's stamped schedule, plus a /proc-observed poison probe",
+        "rule": "case = one (sender schedule, receive-call sequence); distinct = sequence of (call kind, d, result kind); non-trivial = at least two receive calls",
+        "assumptions": ["CLOCK_MONOTONIC stamps of two threads of one process are comparable"],
+    },
     "C09": {
         "plan": c09_plan,
         "require": c09_require,
